@@ -373,7 +373,13 @@ def decision_names(F, f):
         if depth > 6:
             return "?"
         if k == "call":
-            return FL.short(callee(o["t"]) or callee_def(o["t"]) or "?")
+            c = FL.short(callee(o["t"]) or callee_def(o["t"]) or "?")
+            # views of a value decide what the value decides: name.as_deref(), x.as_ref(), it.clone(), r.ok()
+            if c.rsplit("::", 1)[-1] in ("as_deref", "as_ref", "as_mut", "clone", "cloned", "copied", "ok", "as_str", "deref", "borrow", "into") and o["t"]["args"]:
+                a0 = o["t"]["args"][0]
+                if isinstance(a0, dict) and "k" not in a0:
+                    return nm(d.origin_op(a0), depth + 1)
+            return c
         if k == "field":
             return nm(o["base"], depth + 1)
         if k == "rv":
